@@ -254,8 +254,8 @@ func cases(tier string) []func(time.Time) drv.Result {
 	}
 	// the zero value of the key type is a key of every universe, and not the smallest one under every order
 	// (the head sentinel of the list carries the zero key)
-	ints := []int{-10, 0, 10, 20, 30}[:nk]
-	strs := []string{"", "a", "ab", "b", "ba"}[:nk]
+	ints := []int{-10, 0, 10, 20, 30}[:max(nk, 4)]
+	strs := []string{"", "a", "ab", "b", "ba"}[:max(nk, 4)]
 	rev := ord.From[int](func(a, b int) ord.Ordering { return ord.Int.Compare(b, a) })
 	var cs []func(time.Time) drv.Result
 	mk := func(name string, nk, mh int) {
@@ -271,6 +271,16 @@ func cases(tier string) []func(time.Time) drv.Result {
 			})
 	}
 	mk(fmt.Sprintf("%d keys x 2 values x heights 1..%d", nk, mh), nk, mh)
+	if tier == "quick" {
+		mk("4 keys x 2 values x heights 1..2", 4, 2)
+		ints4 := []int{-10, 0, 10, 20}
+		cs = append(cs, func(d time.Time) drv.Result {
+			return runner[int]{universe[int]{"4 keys x 2 values x heights 1..3 ord.Int", ints4, ord.Int, intLess, 2, 3}}.bfs(d)
+		})
+		cs = append(cs, func(d time.Time) drv.Result {
+			return runner[int]{universe[int]{"2 keys x 2 values x heights 1..8 ord.Int", ints4[:2], ord.Int, intLess, 2, 8}}.bfs(d)
+		})
+	}
 	if tier == "thorough" {
 		ints = []int{-10, 0, 10, 20, 30}
 		cs = append(cs, func(d time.Time) drv.Result {
@@ -286,7 +296,7 @@ func cases(tier string) []func(time.Time) drv.Result {
 func main() {
 	drv.Main(drv.Property{
 		ID: "C18", Level: "model_checking", PanicIsViolation: true,
-		Rule:        "one case = (order: ord.Int, reversed ord.From, ord.String) x universe (3 keys, 2 values, node heights 1..3 in quick; 4 keys and heights 1..4, 5 keys x heights 1..3, 3 keys x heights 1..6 in thorough); breadth-first search over ALL reachable states, a state being the complete object graph of the list obtained by reflection inside the staged package (every field of the list and of each node, unexported and future ones included, pointers normalised to discovery order) - the concrete state, so merging is exact even if a change adds hidden state such as a lookup cache; every transition = one Put(k,v,height) / Get(k) / Remove(k) executed on a fresh real list after replaying the shortest history; node heights are an enumerated choice (scripted rand.Source installed through a seam file added to the staged copy)",
+		Rule:        "one case = (order: ord.Int, reversed ord.From, ord.String) x universe (3 keys, 2 values, node heights 1..3, plus 4 keys x heights 1..2, 4 keys x heights 1..3 under ord.Int and 2 keys x heights 1..8 in quick; 4 keys and heights 1..4, 5 keys x heights 1..3, 3 keys x heights 1..6 in thorough); breadth-first search over ALL reachable states, a state being the complete object graph of the list obtained by reflection inside the staged package (every field of the list and of each node, unexported and future ones included, pointers normalised to discovery order) - the concrete state, so merging is exact even if a change adds hidden state such as a lookup cache; every transition = one Put(k,v,height) / Get(k) / Remove(k) executed on a fresh real list after replaying the shortest history; node heights are an enumerated choice (scripted rand.Source installed through a seam file added to the staged copy)",
 		Assumptions: []string{"the seam file added to the staged copy of internal/maplike/skiplist only replaces the list's rand.Source", "larger universes / longer random histories are not sampled (outside this family)"},
 		Cases: func(tier string) (int, func(int) string) {
 			return len(cases(tier)), func(i int) string { return fmt.Sprintf("skiplist bfs #%d", i) }
